@@ -4,13 +4,13 @@ seeded/*/meta.json as written by tools/seed_sweep.py."""
 import json, os, re
 D = "/verif/seeded"
 rows = {}
-for n in sorted(os.listdir(D), key=lambda x: (int(x.split("-")[1]) > 2, int(x.split("-")[1]) > 4, x)):
+for n in sorted(os.listdir(D), key=lambda x: ((int(x.split("-")[1]) + 1) // 2, x)):
     mp = os.path.join(D, n, "meta.json")
     if not os.path.exists(mp):
         continue
     m = json.load(open(mp))
     pid, k = n.split("-")[0], int(n.split("-")[1])
-    rnd = 1 if k <= 2 else 2 if k <= 4 else 3
+    rnd = (k + 1) // 2
     res = m.get("checks_run_against_it", {})
     own = res.get(pid, {})
     kind = "failing input" if own.get("found_failing_input") else "obligation/correspondence only" if own.get("exit") == 1 else "MISSED"
